@@ -5,6 +5,7 @@ import (
 	"regexp"
 	"sort"
 	"strconv"
+	"strings"
 	"time"
 
 	"github.com/pingcap/kvproto/pkg/metapb"
@@ -56,7 +57,9 @@ func runOpWorld(rc *corepkg, prop string) {
 			c.Schedule.EnableJointConsensus = joint
 			// the replica checker would fight the admin operators: keep it from interfering with learners / extra peers
 			c.Schedule.EnableMakeUpReplica = false
-			c.Schedule.EnableRemoveExtraReplica = false
+			// ... except, in some C09 runs, the removal of extra replicas: a normal-priority operator that the admin's
+			// high-priority operators replace
+			c.Schedule.EnableRemoveExtraReplica = prop == "c09" && rc.Knob("extra_replica_checker", 3) == 1
 			c.Schedule.EnableReplaceOfflineReplica = false
 			c.Schedule.EnableRemoveDownReplica = false
 			c.Schedule.EnableLocationReplacement = false
@@ -67,6 +70,7 @@ func runOpWorld(rc *corepkg, prop string) {
 		return
 	}
 	h := ow.Srv.GetHandler()
+	raceAdmin := prop == "c09" && rc.Knob("admin_races_checkers", 2) == 1
 	intents := map[uint64]*adminIntent{} // region -> latest admin intent
 	adminRemoved := map[uint64][]int{}   // region -> steps at which the admin removed its operator
 	// ---- C09: status transitions, admission epoch, end status remembered
@@ -277,6 +281,27 @@ func runOpWorld(rc *corepkg, prop string) {
 		if prop == "c08" && storeVersion != "" && (c.res.Kind == "enter-joint" || c.res.Kind == "leave-joint" || c.res.Kind == "demote-follower") {
 			rc.Violate("c08.step", "step-unsupported-by-cluster-version", "PD ordered a %s of region %d although the stores run TiKV %s, which has neither joint consensus nor demotion", c.res.Kind, c.region, storeVersion)
 		}
+		// C09: an admin request for the region arrives just while a checker's (lower priority) operator completes: the
+		// replacement races with the heartbeat that reports the completion
+		if prop == "c09" && raceAdmin && c.res.Applied && c.owner != nil && !strings.HasPrefix(c.owner.desc, "admin-") && s.Choose(2, "adm.racecheck") == 0 {
+			region := c.region
+			rc.Extra["admin_races_checker_op"]++
+			s.Spawn(-1, "admin-race", func() {
+				simrt.Sleep(time.Duration(s.Choose(3, "adm.race.delay")) * time.Millisecond)
+				r := ow.M.Regions[region]
+				if r == nil || r.Merged || len(r.Peers) == 0 {
+					return
+				}
+				to := r.Peers[s.Choose(len(r.Peers), "adm.race.peer")].StoreID
+				ow.onPD("admin-operator", func() {
+					if s.Choose(2, "adm.race.kind") == 0 {
+						h.AddTransferLeaderOperator(region, to)
+					} else {
+						h.AddRemovePeerOperator(region, to)
+					}
+				})
+			})
+		}
 		if prop != "c08" || c.res.Applied || c.res.Kind == "" {
 			return
 		}
@@ -415,11 +440,11 @@ func runOpWorld(rc *corepkg, prop string) {
 				call(func() error { return h.AddRemovePeerOperator(r.ID, in.from) })
 			case 8:
 				in.kind = "remove-operator"
-				adminRemoved[r.ID] = append(adminRemoved[r.ID], s.Step)
+				// (while the call is in progress any operator of the region may be the one it removes)
+				adminRemoved[r.ID] = append(adminRemoved[r.ID], 1<<60)
 				call(func() error { return h.RemoveOperator(r.ID) })
-				if err != nil {
-					adminRemoved[r.ID] = adminRemoved[r.ID][:len(adminRemoved[r.ID])-1]
-				} else {
+				adminRemoved[r.ID] = adminRemoved[r.ID][:len(adminRemoved[r.ID])-1]
+				if err == nil {
 					adminRemoved[r.ID] = append(adminRemoved[r.ID], s.Step)
 				}
 			case 9:
